@@ -99,9 +99,14 @@ def _cmp(e, c, a):
     if isinstance(x, Enum) and x.ty == 'Option':
         if x.v != y.v: return Enum('Less' if x.v == 'None' else 'Greater', [], 'Ordering')
         return _cmp(e, c, [x.f[0], y.f[0]]) if x.f else Enum('Equal', [], 'Ordering')
-    if isinstance(x, (StrBuf, str)):
-        xs = x.s if isinstance(x, StrBuf) else x; ys = y.s if isinstance(y, StrBuf) else y
-        xb, yb = xs.encode(), ys.encode()
+    if isinstance(x, (StrBuf, str)) or type(x).__name__ == 'SymStr':
+        def tobytes(v):
+            v = v.s if isinstance(v, StrBuf) else v
+            if isinstance(v, str): return v.encode()
+            bs = v.bytes()                      # SymStr: a piece of the input text
+            if not all(isinstance(b, int) for b in bs): raise Unsupported('ordering of symbolic strings')
+            return bytes(bs)
+        xb, yb = tobytes(x), tobytes(y)
         return Enum('Less' if xb < yb else 'Equal' if xb == yb else 'Greater', [], 'Ordering')
     return _partial_cmp(e, c, a).f[0]
 @model('std::cmp::min', 'std::cmp::max', 'cmp::min', 'cmp::max')
@@ -774,6 +779,7 @@ def clone_val(e, v):
     if isinstance(v, (int, bool, str, Ref, SliceRef, FnRef, Closure)) or is_sym(v) or v is None: return v
     cl = getattr(v, 'clone', None)
     if cl is not None: return cl(e)
+    if type(v).__name__ == 'SymStr': return v        # immutable view of the input text
     raise Unsupported('clone of %r' % (v,))
 @model('Clone::clone', '*::clone')
 def _clone(e, c, a):
@@ -834,6 +840,7 @@ def _to_string(e, c, a):
     if isinstance(v, str): return StrBuf(v)
     if isinstance(v, bool): return StrBuf('true' if v else 'false')
     if isinstance(v, int): return StrBuf(str(v))
+    if type(v).__name__ == 'SymStr': return StrBuf(v)        # owned copy of a (possibly symbolic) piece of the input text
     raise Unsupported('to_string of %r' % (v,))
 @model('String::as_str', 'String::as_ref', 'String::borrow', 'Borrow::borrow', 'AsRef::as_ref')
 def _as_str(e, c, a):
